@@ -1047,7 +1047,7 @@ func (c *Fn) makeSlice(x *ssa.MakeSlice) (bool, string, string) {
 	}
 	if x.Cap != x.Len {
 		k := c.Q.At(x.Cap, at)
-		if !(k.LoOK && k.Lo >= 0) {
+		if !(k.LoOK && k.Lo >= 0) && !c.NonNeg(x.Cap, at) {
 			return false, "", "the capacity " + c.F.Plain(x.Cap) + " is not proven non-negative"
 		}
 		if !k.HiOK && !c.boundedByData(x.Cap, at) {
